@@ -91,7 +91,7 @@ func (_this *Context) GetBuiltArrayAsString() string {
 //   - nextRunesBytes will contain the remaining complete runes. The last
 //     incomplete rune, if any, will be stripped out and buffered for the next
 //     call.
-func (_this Context) StreamStringData(data []byte) (firstRuneBytes []byte, nextRunesBytes []byte) {
+func (_this *Context) StreamStringData(data []byte) (firstRuneBytes []byte, nextRunesBytes []byte) {
 	nextRunesBytes = data
 
 	remainderLength := len(_this.utf8RemainderBuffer)
@@ -104,12 +104,14 @@ func (_this Context) StreamStringData(data []byte) (firstRuneBytes []byte, nextR
 			_this.utf8RemainderBuffer = _this.utf8RemainderBuffer[:remainderLength+bytesCopied]
 			return
 		}
-		firstRuneBytes = _this.utf8RemainderBuffer
+		// Hand the completed rune out in its own buffer: the remainder buffer may be refilled below.
+		firstRuneBytes = _this.utf8FirstRuneBacking[:requiredByteCount]
+		copy(firstRuneBytes, _this.utf8RemainderBuffer)
 		_this.utf8RemainderBuffer = _this.utf8RemainderBuffer[:0]
 	}
 
 	lastIndex, isComplete := chars.IndexOfLastRuneStart(nextRunesBytes)
-	if !isComplete {
+	if !isComplete && chars.CalculateRuneByteCount(nextRunesBytes[lastIndex]) > 0 {
 		remainderBytes := nextRunesBytes[lastIndex:]
 		_this.utf8RemainderBuffer = _this.utf8RemainderBacking[:len(remainderBytes)]
 		copy(_this.utf8RemainderBuffer, remainderBytes)
